@@ -307,6 +307,13 @@ func init() {
 				}
 				if r != "ok" {
 					calls = append(calls, r)
+					// a caller that got an error still closes the writer (defer w.Close()): that must not panic.
+					// Reported as a suffix only when it does.
+					if r == "err" && op[0] != 'c' && s.failAt > 0 {
+						if guard(w.Close) == "panic" {
+							calls[len(calls)-1] = "err+close-panics"
+						}
+					}
 					break
 				}
 				calls = append(calls, s.take())
